@@ -13,6 +13,7 @@ RULE = ("files with random 32-bit packed words (random top bits), random channel
         "value with the format's div/mod formula (oracle) and with the Lean model. A case = (format, line); non-trivial "
         "= the line has at least two different samples; distinct by (format, seed, line)")
 RULE += (" In the thorough tier, and in the quick tier whenever the source differs from the validated baseline, a LONG-PASS stream is added (passes of 1300 .. 12000 lines, just beyond multiples of 256 .. 8192, with the property-relevant event placed at and after such multiples; DESIGN 10.4 round 13).")
+RULE += (" PLATFORM SWEEP: one 3-line pass per spacecraft of either family (on a date of its life), with zero samples next to non-zero ones.")
 RULE += (" DATASET AFTER CALIBRATION: 60-line passes with realistic telemetry and drop-outs the calibration repairs in place; the counts "
          "dataset is rebuilt after get_calibrated_channels() and get_calibrated_dataset() on the same reader and compared with the means.")
 
@@ -26,17 +27,26 @@ def spec_counts(words, width):
     return ((w // sh) % 1024).reshape(len(words), width, 5).astype(np.int64)
 
 
-def check_pass(ctx, fmt, n, seed, drv, top="random", uniform=None):
+def check_pass(ctx, fmt, n, seed, drv, top="random", uniform=None, plat=None):
     f = filegen.FMT[fmt]
     fam = f["family"]
     rng = random.Random(repr((seed, fmt, n)))
-    pb = filegen.PassBuilder(ctx, fmt, n, rng)
+    if plat is None:
+        pb = filegen.PassBuilder(ctx, fmt, n, rng)
+    else:
+        # PLATFORM SWEEP: the same decoding for every spacecraft of the family (on a date of its life); a fifth of the pixels
+        # carry a fifth sample of 0 next to a fourth sample that is not (and the other way round)
+        pb, _ = filegen.platform_pass(ctx, fmt, n, rng, plat)
+        z = pb.nprng.random(size=(n, f["width"]))
+        pb.samples[:, 4::5][z < 0.2] = 0
+        pb.samples[:, 3::5][(z < 0.2) & (pb.samples[:, 3::5] == 0)] = 517
+        pb.samples[:, 3::5][z > 0.9] = 0
     nprng = pb.nprng
     if top == "random":
         pb.top_bits = nprng.integers(0, 4, size=pb.top_bits.shape, dtype=np.uint32)
     elif top == "ones":
         pb.top_bits[:] = 3
-    payload = {"fmt": fmt, "n": n, "seed": seed, "top": top, "uniform": uniform}
+    payload = {"fmt": fmt, "n": n, "seed": seed, "top": top, "uniform": uniform, "plat": plat}
     words = filegen.pack_words(pb.samples, f["words"], pb.top_bits)
     if fam == "klm":
         sw = nprng.integers(0, 4, size=n)
@@ -223,6 +233,11 @@ def run(ctx):
     for j, (fmt, n, u) in enumerate([(f_, n_, u_) for f_ in ("klmGac", "klmLac") for n_ in (1, 2, 5) for u_ in (0, 1, 2, 3)]):
         check_pass(ctx, fmt, n, ctx.seed * 1000 + 500 + j, drv, "random", uniform=u)
         flush(ctx, drv)
+    for fam_fmt in ("podGac", "klmGac"):
+        for k in range(len(filegen.PLATFORMS[filegen.FMT[fam_fmt]["family"]])):
+            fmt = fam_fmt if k % 3 else fam_fmt.replace("Gac", "Lac")
+            check_pass(ctx, fmt, 3, ctx.seed * 1000 + 800 + k, drv, "random", plat=k)
+            flush(ctx, drv)
     for j, fmt in enumerate(["klmGac", "podGac", "klmLac", "podLac"][: (4 if (ctx.thorough or getattr(ctx, "escalated", False)) else 2)]):
         repeat_dataset_case(ctx, fmt, ctx.seed * 1000 + 700 + j)
     ctx.assumptions += ["float64 means of <= 50 integers below 65536 are exact to 1e-9"]
@@ -239,7 +254,7 @@ def replay(ctx, path):
     if inp.get("stream") == "dataset-after-calibration":
         repeat_dataset_case(ctx, inp["fmt"], inp["seed"])
     else:
-        check_pass(ctx, inp["fmt"], inp["n"], inp["seed"], [], inp.get("top", "random"), uniform=inp.get("uniform"))
+        check_pass(ctx, inp["fmt"], inp["n"], inp["seed"], [], inp.get("top", "random"), uniform=inp.get("uniform"), plat=inp.get("plat"))
     if ctx.input_violations:
         print("REPRODUCED: " + ctx.input_violations[0]["what"])
         return 1
